@@ -30,14 +30,17 @@ pub fn build_source(case: &Value) -> (Vec<u8>, String) {
     e.push((3, XEntry::InUse { off: o, gen: 0 }));
     let mut content = String::new();
     if used.iter().any(|u| u == "gs") { content += "/GS1 gs "; }
-    if used.iter().any(|u| u == "font") { content += "BT /F1 12 Tf (hi) Tj ET "; }
+    if used.iter().any(|u| u == "font") { content += "BT /R1 12 Tf (hi) Tj ET "; }
+    if used.iter().any(|u| u == "xobject") { content += "q /R1 Do Q "; }
     if used.iter().any(|u| u == "colorspace") { content += "/CS1 cs 0.5 sc "; }
     content += "1 2 m 3 4 l S";
     let o = d.stream(4, 0, "", content.as_bytes(), None, false);
     e.push((4, XEntry::InUse { off: o, gen: 0 }));
     let mut rs = String::new();
     if res("gs") != 0 { rs += "/ExtGState << /GS1 6 0 R /GSunused << /LW 9 >> >> "; }
-    if res("font") != 0 { rs += &format!("/Font << /F1 {} 0 R >> ", 10 + res("font")); }
+    // the font and the XObject deliberately share one name: the categories are separate name spaces
+    if res("font") != 0 { rs += &format!("/Font << /R1 {} 0 R >> ", 10 + res("font")); }
+    if res("xobject") != 0 { rs += "/XObject << /R1 8 0 R /Xunused 8 0 R >> "; }
     if res("colorspace") != 0 { rs += "/ColorSpace << /CS1 [/ICCBased 7 0 R] >> "; }
     let o = d.obj(5, 0, format!("<< {} >>", rs).as_bytes());
     e.push((5, XEntry::InUse { off: o, gen: 0 }));
@@ -45,6 +48,8 @@ pub fn build_source(case: &Value) -> (Vec<u8>, String) {
     e.push((6, XEntry::InUse { off: o, gen: 0 }));
     let o = d.stream(7, 0, "/N 1", b"ICC-PROFILE-BYTES", None, false);
     e.push((7, XEntry::InUse { off: o, gen: 0 }));
+    let o = d.stream(8, 0, "/Type /XObject /Subtype /Form /BBox [0 0 9 9]", b"0 0 9 9 re f", None, false);
+    e.push((8, XEntry::InUse { off: o, gen: 0 }));
     for k in 1..=n {
         let refs: Vec<String> = ids(&edges[k as usize - 1]).iter().map(|r| format!("{} 0 R", 10 + r)).collect();
         // every graph object is a loadable font dictionary so that it can sit behind /F1
@@ -145,7 +150,8 @@ pub fn run(cases_path: &str, report_path: &str, _opts: &[String]) {
                         for u in &used {
                             let ok = match (u.as_str(), &res) {
                                 ("gs", Some(rs)) => rs.graphics_states.get("GS1").map(|g| g.line_width == Some(2.5)).unwrap_or(false),
-                                ("font", Some(rs)) => rs.fonts.get("F1").map(|l| l.load(&r).map(|ft| ft._other.get("Marker") == Some(&Primitive::Integer(case["resobj"]["font"].as_i64().unwrap() as i32))).unwrap_or(false)).unwrap_or(false),
+                                ("xobject", Some(rs)) => rs.xobjects.get("R1").map(|x| r.resolve(x.get_inner()).ok().and_then(|p| match p { Primitive::Stream(st) => st.raw_data(&r).ok().map(|d| &*d == b"0 0 9 9 re f"), _ => None }).unwrap_or(false)).unwrap_or(false),
+                                ("font", Some(rs)) => rs.fonts.get("R1").map(|l| l.load(&r).map(|ft| ft._other.get("Marker") == Some(&Primitive::Integer(case["resobj"]["font"].as_i64().unwrap() as i32))).unwrap_or(false)).unwrap_or(false),
                                 ("colorspace", Some(rs)) => rs.color_spaces.contains_key("CS1"),
                                 _ => false,
                             };
